@@ -258,8 +258,13 @@ impl CanonicalRequest {
                         pq.push_str(&qs);
                     }
 
-                    parts.uri =
-                        Uri::builder().path_and_query(pq).build().expect("failed to rebuild URI with new query string");
+                    // This fails when the merged query string exceeds what a Uri can hold (a large form body).
+                    parts.uri = Uri::builder().path_and_query(pq).build().map_err(|e| {
+                        SignatureError::MalformedQueryString(format!(
+                            "Unable to rebuild URI with application/x-www-form-urlencoded body parameters: {}",
+                            e
+                        ))
+                    })?;
                     body = Bytes::from("");
                 }
             }
